@@ -123,6 +123,11 @@ theorem allZero_replicate_zero (n : Nat) : AllZero (List.replicate n 0) := by
   | zero => exact allZero_nil
   | succ n ih => rw [List.replicate_succ]; exact allZero_cons_iff.2 ⟨rfl, ih⟩
 
+theorem allZero_append {a b : List Nat} : AllZero (a ++ b) ↔ AllZero a ∧ AllZero b := by
+  induction a with
+  | nil => simp [allZero_nil]
+  | cons x xs ih => simp only [List.cons_append, allZero_cons_iff, ih, and_assoc]
+
 theorem allZeroB_iff (l : List Nat) : allZeroB l = true ↔ AllZero l := by
   induction l with
   | nil => simp [allZeroB, allZero_nil]
